@@ -167,6 +167,383 @@ theorem xshow_eq_bruteforce {M : Matchers Re} (hM : MatcherFaithful M) {s : St} 
     rintro ⟨key, h1, h2, _⟩
     exact hc (containsMeasurement_iff.mpr ⟨(key, i), mem_Gen_k2i.mp h1, h2⟩)
 
+/-! ### select path -/
+
+theorem isAllField_sat {M : Matchers Re} (p : XPred Re) (h : isAllField p = true) (key : SKey) :
+    p.sat M key = true := by
+  induction p with
+  | atom a => cases a <;> simp_all [isAllField, XPred.sat, XAtom.sat]
+  | and a b iha ihb =>
+    simp only [isAllField, Bool.and_eq_true] at h
+    simp [XPred.sat, iha h.1, ihb h.2]
+  | or a b iha ihb =>
+    simp only [isAllField, Bool.and_eq_true] at h
+    simp [XPred.sat, iha h.1]
+  | paren a ih => simpa [XPred.sat] using ih h
+
+/-- what the result of a sub-tree evaluation means -/
+def XOk (M : Matchers Re) (l : List (SKey × Id)) (mst : Str) (del : List Id) (p : XPred Re) : XRes → Prop
+  | .ids x => ∀ i, i ∈ x ↔ Sem l mst del (fun key => p.sat M key = true) i
+  | .fieldExpr => isAllField p = true
+  | .fail => False
+
+theorem XOk.asIds {M : Matchers Re} {l : List (SKey × Id)} (hl : Good l) {mst : Str} {del : List Id} {p : XPred Re}
+    {r : XRes} (h : XOk M l mst del p r) :
+    ∃ x, asIds (Gen l) del mst r = some x ∧ ∀ i, i ∈ x ↔ Sem l mst del (fun key => p.sat M key = true) i := by
+  cases r with
+  | ids x => exact ⟨x, rfl, h⟩
+  | fieldExpr =>
+    refine ⟨_, rfl, fun i => ?_⟩
+    rw [mem_allIds]
+    exact Sem.congr hl (fun k _ => by simp [isAllField_sat p h k])
+  | fail => exact absurd h id
+
+theorem allAndLeaves_spec {M : Matchers Re} (p : XPred Re) :
+    ∀ tags n, allAndLeaves p = some (tags, n) →
+      (p.KeysOk → ∀ a ∈ tags, a.key ≠ "") ∧ ∀ key, (p.sat M key = true ↔ allSat M tags key) := by
+  induction p with
+  | atom a =>
+    intro tags n h
+    cases a with
+    | tag a =>
+      simp only [allAndLeaves, Option.some.injEq, Prod.mk.injEq] at h
+      obtain ⟨rfl, _⟩ := h
+      exact ⟨fun hk b hb => by simp only [List.mem_singleton] at hb; subst hb; exact hk,
+        fun key => by simp [allSat, XPred.sat, XAtom.sat]⟩
+    | field m =>
+      simp only [allAndLeaves, Option.some.injEq, Prod.mk.injEq] at h
+      obtain ⟨rfl, _⟩ := h
+      exact ⟨fun _ b hb => by simp at hb, fun key => by simp [allSat, XPred.sat, XAtom.sat]⟩
+    | inSet _ _ => simp [allAndLeaves] at h
+    | notIn _ _ => simp [allAndLeaves] at h
+    | tagEq _ _ => simp [allAndLeaves] at h
+    | tagNe _ _ => simp [allAndLeaves] at h
+  | and a b iha ihb =>
+    intro tags n h
+    simp only [allAndLeaves] at h
+    cases ha : allAndLeaves a with
+    | none => rw [ha] at h; simp at h
+    | some x =>
+      cases hb : allAndLeaves b with
+      | none => rw [ha, hb] at h; simp at h
+      | some y =>
+        rw [ha, hb] at h
+        obtain ⟨x1, x2⟩ := x
+        obtain ⟨y1, y2⟩ := y
+        simp only [Option.some.injEq, Prod.mk.injEq] at h
+        obtain ⟨rfl, _⟩ := h
+        obtain ⟨h2, h3⟩ := iha x1 x2 ha
+        obtain ⟨h2', h3'⟩ := ihb y1 y2 hb
+        refine ⟨fun hk c hc => ?_, fun key => ?_⟩
+        · rcases List.mem_append.mp hc with hc | hc
+          · exact h2 hk.1 c hc
+          · exact h2' hk.2 c hc
+        · simp only [XPred.sat, Bool.and_eq_true, h3 key, h3' key, allSat, List.mem_append]
+          constructor
+          · rintro ⟨p1, p2⟩ c (hc | hc)
+            · exact p1 c hc
+            · exact p2 c hc
+          · intro hh
+            exact ⟨fun c hc => hh c (Or.inl hc), fun c hc => hh c (Or.inr hc)⟩
+  | or a b _ _ => intro tags n h; simp [allAndLeaves] at h
+  | paren a ih =>
+    intro tags n h
+    simp only [allAndLeaves] at h
+    obtain ⟨h2, h3⟩ := ih tags n h
+    exact ⟨fun hk => h2 hk, fun key => by simpa [XPred.sat] using h3 key⟩
+
+theorem pruneWithSet_spec {l : List (SKey × Id)} (hl : Good l) (k : Str) (vs : List Str) (neg : Bool) (set : List Id)
+    (hset : ∀ i ∈ set, ∃ key, (key, i) ∈ l) :
+    ∃ r, pruneWithSet (Gen l) set k vs neg = some r ∧
+      ∀ i, i ∈ r ↔ i ∈ set ∧ ∀ key, (key, i) ∈ l → (vs.contains (key.tagOrEmpty k) == neg) = false := by
+  induction set with
+  | nil => exact ⟨[], rfl, by simp⟩
+  | cons x t ih =>
+    obtain ⟨r, hr, hmem⟩ := ih (fun i hi => hset i (List.mem_cons_of_mem _ hi))
+    obtain ⟨key, hk⟩ := hset x (List.mem_cons_self ..)
+    have hkey := keyOfId_eq hl hk
+    unfold pruneWithSet at hr ⊢
+    simp only [List.foldr_cons, hr, hkey]
+    by_cases hc : (vs.contains (key.tagOrEmpty k) == neg) = true
+    · refine ⟨r, by rw [if_pos hc], fun i => ?_⟩
+      rw [hmem i]
+      constructor
+      · rintro ⟨h1, h2⟩; exact ⟨List.mem_cons_of_mem _ h1, h2⟩
+      · rintro ⟨h1, h2⟩
+        rcases List.mem_cons.mp h1 with rfl | h1
+        · have := h2 key hk; rw [hc] at this; exact absurd this (by decide)
+        · exact ⟨h1, h2⟩
+    · have hc' : (vs.contains (key.tagOrEmpty k) == neg) = false := by simpa using hc
+      refine ⟨x :: r, by rw [if_neg hc], fun i => ?_⟩
+      simp only [List.mem_cons, hmem i]
+      constructor
+      · rintro (rfl | ⟨h1, h2⟩)
+        · refine ⟨Or.inl rfl, fun key' hk' => ?_⟩
+          rw [hl.key_eq hk' hk]; exact hc'
+        · exact ⟨Or.inr h1, h2⟩
+      · rintro ⟨rfl | h1, h2⟩
+        · exact Or.inl rfl
+        · exact Or.inr ⟨h1, h2⟩
+
+theorem bigIn_spec {p : XPred Re} {k : Str} {vs : List Str} {neg : Bool} (h : bigIn p = some (k, vs, neg)) :
+    (p = .atom (.inSet k vs) ∧ neg = false) ∨ (p = .atom (.notIn k vs) ∧ neg = true) := by
+  cases p with
+  | atom a =>
+    cases a with
+    | inSet k' vs' =>
+      simp only [bigIn] at h
+      split at h
+      · simp only [Option.some.injEq, Prod.mk.injEq] at h
+        obtain ⟨rfl, rfl, rfl⟩ := h
+        exact Or.inl ⟨rfl, rfl⟩
+      · simp at h
+    | notIn k' vs' =>
+      simp only [bigIn] at h
+      split at h
+      · simp only [Option.some.injEq, Prod.mk.injEq] at h
+        obtain ⟨rfl, rfl, rfl⟩ := h
+        exact Or.inr ⟨rfl, rfl⟩
+      · simp at h
+    | tag _ => simp [bigIn] at h
+    | tagEq _ _ => simp [bigIn] at h
+    | tagNe _ _ => simp [bigIn] at h
+    | field _ => simp [bigIn] at h
+  | and _ _ => simp [bigIn] at h
+  | or _ _ => simp [bigIn] at h
+  | paren _ => simp [bigIn] at h
+
+/-- pruning the evaluated operand `q` with the set of the other operand gives the AND of both -/
+theorem prunedBy_spec {M : Matchers Re} {l : List (SKey × Id)} (hl : Good l) {mst : Str} {del : List Id}
+    {q : XPred Re} {k : Str} {vs : List Str} {neg : Bool} {rq : XRes × Caches} (hq : XOk M l mst del q rq.1)
+    {out : XRes × Caches} (h : prunedBy (Gen l) k vs neg rq = some out) :
+    out.2 = rq.2 ∧ ∃ x, out.1 = .ids x ∧
+      ∀ i, i ∈ x ↔ Sem l mst del (fun key => q.sat M key = true ∧ (vs.contains (key.tagOrEmpty k) == neg) = false) i := by
+  obtain ⟨r, c'⟩ := rq
+  cases r with
+  | ids x =>
+    simp only [prunedBy] at h
+    have hset : ∀ i ∈ x, ∃ key, (key, i) ∈ l := fun i hi => by
+      obtain ⟨key, h1, _⟩ := (hq i).mp hi; exact ⟨key, h1⟩
+    obtain ⟨y, hy, hmem⟩ := pruneWithSet_spec hl k vs neg x hset
+    rw [hy] at h
+    simp only [Option.some.injEq] at h
+    subst h
+    refine ⟨rfl, y, rfl, fun i => ?_⟩
+    rw [hmem i]
+    constructor
+    · rintro ⟨h1, h2⟩
+      obtain ⟨key, g1, g2, g3, g4⟩ := (hq i).mp h1
+      exact ⟨key, g1, g2, g3, g4, h2 key g1⟩
+    · rintro ⟨key, g1, g2, g3, g4, g5⟩
+      refine ⟨(hq i).mpr ⟨key, g1, g2, g3, g4⟩, fun key' hk' => ?_⟩
+      rw [hl.key_eq hk' g1]; exact g5
+  | fieldExpr => simp [prunedBy] at h
+  | fail => simp [prunedBy] at h
+
+theorem xLeaf_spec {M : Matchers Re} (hM : MatcherFaithful M) (hK : KeySound M) {l : List (SKey × Id)} (hl : Good l)
+    {del : List Id} {mst : Str} {c : Caches} (hc : CacheOk M l del c) (a : XAtom Re)
+    (hk : (XPred.atom a).KeysOk) (hn : (XPred.atom a).NoTagCmp) :
+    CacheOk M l del (xLeaf M (Gen l) del mst c a).2 ∧ XOk M l mst del (.atom a) (xLeaf M (Gen l) del mst c a).1 := by
+  cases a with
+  | tag a =>
+    obtain ⟨h1, h2⟩ := selLeaf_spec (mst := mst) hK hl hc a hk
+    refine ⟨h1, fun i => ?_⟩
+    show i ∈ (selLeaf M (Gen l) del mst c a).1 ↔ _
+    rw [h2 i]
+    exact Sem.congr hl (fun k hkw => by simp only [XPred.sat, XAtom.sat]; rw [a.dsat_eq_sat hM hkw])
+  | inSet k vs =>
+    refine ⟨hc, fun i => ?_⟩
+    show i ∈ setEval M (Gen l) del mst k vs true ↔ _
+    rw [mem_setEval hl hk]
+    exact Sem.congr hl (fun _ _ => by simp [XPred.sat, XAtom.sat])
+  | notIn k vs =>
+    refine ⟨hc, fun i => ?_⟩
+    show i ∈ setEval M (Gen l) del mst k vs false ↔ _
+    rw [mem_setEval hl hk]
+    exact Sem.congr hl (fun _ _ => by simp [XPred.sat, XAtom.sat])
+  | tagEq _ _ => exact absurd hn (by simp [XPred.NoTagCmp])
+  | tagNe _ _ => exact absurd hn (by simp [XPred.NoTagCmp])
+  | field n => exact ⟨hc, rfl⟩
+
+theorem fastPath_spec {M : Matchers Re} (hM : MatcherFaithful M) (hK : KeySound M) {l : List (SKey × Id)} (hl : Good l)
+    {del : List Id} {mst : Str} {c : Caches} (hc : CacheOk M l del c) (p : XPred Re) (hk : p.KeysOk)
+    {out : XRes × Caches} (h : fastPath M (Gen l) del mst c p = some out) :
+    CacheOk M l del out.2 ∧ XOk M l mst del p out.1 := by
+  unfold fastPath at h
+  cases hal : allAndLeaves p with
+  | none => rw [hal] at h; simp at h
+  | some tn =>
+    obtain ⟨tags, n⟩ := tn
+    rw [hal] at h
+    obtain ⟨hkeys, hsat⟩ := allAndLeaves_spec (M := M) p tags n hal
+    match tags, h, hkeys, hsat with
+    | [], h, _, _ => simp at h
+    | [t], h, hkeys, hsat =>
+      simp only [oneFilter, Option.some.injEq] at h
+      subst h
+      refine ⟨hc.costPut _ _, fun i => ?_⟩
+      show i ∈ (leafEval M (Gen l) del mst t).1 ↔ _
+      rw [mem_leafEval hl t (hkeys hk t (List.mem_singleton.mpr rfl))]
+      apply Sem.congr hl
+      intro key hkw
+      rw [hsat key, t.dsat_eq_sat hM hkw]
+      simp [allSat]
+    | t1 :: t2 :: rest, h, hkeys, hsat =>
+      obtain ⟨hc1, ids, hids, hmem⟩ := fastAnd_spec (mst := mst) hM hK hl hc (t1 :: t2 :: rest) (by simp) (hkeys hk)
+      simp only at h
+      rw [show fastAnd M (Gen l) del mst c (t1 :: t2 :: rest) =
+        ((fastAnd M (Gen l) del mst c (t1 :: t2 :: rest)).1, (fastAnd M (Gen l) del mst c (t1 :: t2 :: rest)).2) from rfl,
+        hids] at h
+      simp only [Option.some.injEq] at h
+      subst h
+      refine ⟨hc1, fun i => ?_⟩
+      show i ∈ ids ↔ _
+      rw [hmem i]
+      exact Sem.congr hl (fun key _ => (hsat key).symm)
+
+/-- **select path**: result = brute force over the tag part, cache stays coherent -/
+theorem xSelExpr_spec {M : Matchers Re} (hM : MatcherFaithful M) (hK : KeySound M) {l : List (SKey × Id)} (hl : Good l)
+    {del : List Id} {mst : Str} (p : XPred Re) :
+    ∀ (c : Caches), CacheOk M l del c → p.KeysOk → p.NoTagCmp →
+      CacheOk M l del (xSelExpr M (Gen l) del mst p c).2 ∧ XOk M l mst del p (xSelExpr M (Gen l) del mst p c).1 := by
+  induction p with
+  | atom a => intro c hc hk hn; exact xLeaf_spec hM hK hl hc a hk hn
+  | paren a ih =>
+    intro c hc hk hn
+    obtain ⟨h1, h2⟩ := ih c hc hk hn
+    refine ⟨h1, ?_⟩
+    show XOk M l mst del (.paren a) (xSelExpr M (Gen l) del mst a c).1
+    cases hr : (xSelExpr M (Gen l) del mst a c).1 with
+    | ids x => rw [hr] at h2; exact fun i => by rw [h2 i]; exact Sem.congr hl (fun _ _ => by simp [XPred.sat])
+    | fieldExpr => rw [hr] at h2; exact h2
+    | fail => rw [hr] at h2; exact h2
+  | or a b iha ihb =>
+    intro c hc hk hn
+    simp only [xSelExpr]
+    by_cases hf : isAllField (.or a b) = true
+    · simp only [hf, if_true]; exact ⟨hc, hf⟩
+    · simp only [hf, Bool.false_eq_true, if_false]
+      obtain ⟨hc1, ha⟩ := iha c hc hk.1 hn.1
+      obtain ⟨hc2, hb⟩ := ihb _ hc1 hk.2 hn.2
+      refine ⟨hc2, ?_⟩
+      obtain ⟨x, hx, hxm⟩ := ha.asIds hl
+      obtain ⟨y, hy, hym⟩ := hb.asIds hl
+      simp only [combineOr, hx, hy]
+      intro i
+      rw [mem_union, hxm i, hym i, Sem.or]
+      exact Sem.congr hl (fun _ _ => by simp [XPred.sat])
+  | and a b iha ihb =>
+    intro c hc hk hn
+    simp only [xSelExpr]
+    obtain ⟨hca, ha⟩ := iha c hc hk.1 hn.1
+    obtain ⟨hcb, hb⟩ := ihb c hc hk.2 hn.2
+    cases hv : viaIn (Gen l) a b (xSelExpr M (Gen l) del mst a c) (xSelExpr M (Gen l) del mst b c) with
+    | some out =>
+      simp only
+      unfold viaIn at hv
+      cases hch : chooseIN a b with
+      | none => rw [hch] at hv; simp at hv
+      | some left =>
+        rw [hch] at hv
+        cases left with
+        | true =>
+          simp only at hv
+          cases hbi : bigIn a with
+          | none => rw [hbi] at hv; simp at hv
+          | some kvn =>
+            obtain ⟨k, vs, neg⟩ := kvn
+            rw [hbi] at hv
+            simp only at hv
+            obtain ⟨hcout, x, hx, hxm⟩ := prunedBy_spec hl hb hv
+            refine ⟨by rw [hcout]; exact hcb, ?_⟩
+            rw [hx]
+            intro i
+            rw [hxm i]
+            apply Sem.congr hl
+            intro key _
+            rcases bigIn_spec hbi with ⟨rfl, rfl⟩ | ⟨rfl, rfl⟩ <;>
+              simp [XPred.sat, XAtom.sat, and_comm]
+        | false =>
+          simp only at hv
+          cases hbi : bigIn b with
+          | none => rw [hbi] at hv; simp at hv
+          | some kvn =>
+            obtain ⟨k, vs, neg⟩ := kvn
+            rw [hbi] at hv
+            simp only at hv
+            obtain ⟨hcout, x, hx, hxm⟩ := prunedBy_spec hl ha hv
+            refine ⟨by rw [hcout]; exact hca, ?_⟩
+            rw [hx]
+            intro i
+            rw [hxm i]
+            apply Sem.congr hl
+            intro key _
+            rcases bigIn_spec hbi with ⟨rfl, rfl⟩ | ⟨rfl, rfl⟩ <;>
+              simp [XPred.sat, XAtom.sat]
+    | none =>
+      simp only
+      cases hfp : fastPath M (Gen l) del mst c (.and a b) with
+      | some out => exact fastPath_spec hM hK hl hc (.and a b) hk hfp
+      | none =>
+        simp only
+        by_cases hf : isAllField (.and a b) = true
+        · simp only [hf, if_true]; exact ⟨hc, hf⟩
+        · simp only [hf, Bool.false_eq_true, if_false]
+          obtain ⟨hc2, hb'⟩ := ihb _ hca hk.2 hn.2
+          refine ⟨hc2, ?_⟩
+          have hfa : ¬ (isAllField a = true ∧ isAllField b = true) := by
+            intro h; apply hf; simp [isAllField, h.1, h.2]
+          cases hra : (xSelExpr M (Gen l) del mst a c).1 with
+          | fail => rw [hra] at ha; exact absurd ha id
+          | fieldExpr =>
+            rw [hra] at ha
+            cases hrb : (xSelExpr M (Gen l) del mst b (xSelExpr M (Gen l) del mst a c).2).1 with
+            | fail => rw [hrb] at hb'; exact absurd hb' id
+            | fieldExpr => rw [hrb] at hb'; exact absurd ⟨ha, hb'⟩ hfa
+            | ids y =>
+              rw [hrb] at hb'
+              simp only [combineAnd]
+              intro i
+              rw [hb' i]
+              exact Sem.congr hl (fun key _ => by simp [XPred.sat, isAllField_sat a ha key])
+          | ids x =>
+            rw [hra] at ha
+            cases hrb : (xSelExpr M (Gen l) del mst b (xSelExpr M (Gen l) del mst a c).2).1 with
+            | fail => rw [hrb] at hb'; exact absurd hb' id
+            | fieldExpr =>
+              rw [hrb] at hb'
+              simp only [combineAnd]
+              intro i
+              rw [ha i]
+              exact Sem.congr hl (fun key _ => by simp [XPred.sat, isAllField_sat b hb' key])
+            | ids y =>
+              rw [hrb] at hb'
+              simp only [combineAnd]
+              intro i
+              rw [mem_inter, ha i, hb' i, Sem.and hl]
+              exact Sem.congr hl (fun key _ => by simp [XPred.sat])
+
+/-- **`xsel_eq_bruteforce`**: for every predicate tree over the basic tag atoms, IN / NOT IN (also
+through the prune-with-set path) and field comparisons, in every reachable state in which no flush
+callback is owed, the select path returns exactly the series whose tags satisfy the tag part of the
+predicate: a field comparison never narrows the answer. -/
+theorem xsel_eq_bruteforce {M : Matchers Re} (hM : MatcherFaithful M) (hK : KeySound M) {s : St} (hr : Reach M s)
+    (hb : s.needBump = false) (mst : Str) (p : XPred Re) (hp : p.KeysOk) (hn : p.NoTagCmp) :
+    ∃ ids, (xSearchSel M s mst p).1 = some ids ∧ ∀ i, i ∈ ids ↔ XMatches M s mst p i := by
+  obtain ⟨cv, cp, h, hc⟩ := reach_cache hM hK hr
+  have hl := h.goodVis
+  unfold xSearchSel
+  simp only
+  rw [h.vis]
+  obtain ⟨_, hok⟩ := xSelExpr_spec (mst := mst) hM hK hl p s.caches (hc hb) hp hn
+  obtain ⟨x, hx, hxm⟩ := hok.asIds hl
+  refine ⟨x, hx, fun i => ?_⟩
+  rw [hxm i]
+  unfold XMatches Sem
+  constructor
+  · rintro ⟨key, h1, h2, h3, h4⟩; exact ⟨key, by rw [h.vis]; exact mem_Gen_k2i.mpr h1, h2, h3, h4⟩
+  · rintro ⟨key, h1, h2, h3, h4⟩; exact ⟨key, mem_Gen_k2i.mp (by rw [← h.vis]; exact h1), h2, h3, h4⟩
+
 /-! ### `tag = tag` -/
 
 /-- the statement one expects of `tag = tag`, on the show-series and on the select path -/
